@@ -110,7 +110,9 @@ def run(ctx):
             # printer writes as plain text (decided on the tree by the driver)
             placeholder = x["printed"].split(" ")[0] in ("otherread", "otheradmin")
             plain = x.get("quoted_names_in_plain_text_nodes", [])
-            ctx.violation({"site": "sqlparser.String", "why": "printed text does not parse", "features": f[:6], "src": c["src"], "placeholder_statement": placeholder, "quoted_name_in_plain_text_node": bool(plain), "nodes": plain},
+            # an empty string literal used as a table alias / CTE name (the grammar takes a STRING there): there is no way to print an empty identifier
+            empty_alias = bool(re.search(r"''|\"\"", c["sql"])) and bool(re.search(r"\bWITH  AS\b|,  AS \(|\bas  |\bas$|\bas \)", x["printed"]))
+            ctx.violation({"site": "sqlparser.String", "why": "printed text does not parse", "features": f[:6], "src": c["src"], "placeholder_statement": placeholder, "quoted_name_in_plain_text_node": bool(plain), "nodes": plain, "empty_string_alias": empty_alias},
                           {"sql": c["sql"]}, expected="String(Parse(s)) parses",
                           observed={"printed": x["printed"], "error": x["err"]}, note="the printed statement is rejected by the parser")
         elif not x["equal"]:
